@@ -32,7 +32,7 @@ Section Top.
     split; [eapply genuine_pairs; eassumption|].
     assert (n3_salt first = salt /\ n3_iter first = iter) as [Es Ei].
     { rewrite Ers in Hgen. inversion Hgen as [|? ? Hf _]; subst.
-      destruct Hf as (n & ts & l & base & _ & _ & _ & _ & _ & E1 & E2 & _). auto. }
+      destruct Hf as (n & ts & l & base & _ & _ & _ & _ & _ & _ & E1 & E2 & _). auto. }
     unfold dispatch in Hd. rewrite Es, Ei in Hd. cbn zeta.
     destruct (rcode =? 3) eqn:E3; [left; split; [now apply N.eqb_eq|exact Hd]|].
     destruct (rcode =? 0) eqn:E0; [right; split; [now apply N.eqb_eq|exact Hd]|discriminate].
